@@ -204,6 +204,16 @@ theorem C16_enter_refused_iff_busy (evs : List GuardEv) :
     ((guardRun 0 evs).1 = 0 → guardStep (guardRun 0 evs).1 .enter = (1, .accepted)) := by
   constructor <;> intro h <;> rw [h] <;> rfl
 
+/-- Entry of `MeasureClockOffsets`: a length mismatch panics before the guard is touched; with
+    equal lengths a busy client refuses and an idle one accepts (the only way into a round, so
+    the hypothesis `len(ms0) = len(senders)` of the theorems above is enforced by the code). -/
+theorem C16_entry (a b g : Nat) :
+    (a ≠ b → entry a b g = (g, .lenPanic)) ∧
+    (a = b → g = 1 → entry a b g = (1, .refused)) ∧
+    (a = b → g = 0 → entry a b g = (1, .accepted)) := by
+  refine ⟨fun h => by simp [entry, h], fun h hg => ?_, fun h hg => ?_⟩ <;>
+    subst h <;> subst hg <;> simp [entry, guardStep]
+
 example : (guardRun 0 [.enter, .enter, .leave, .enter]).2 = [.accepted, .refused, .left, .accepted] := by decide
 
 end ScionTime.C16
